@@ -115,9 +115,38 @@ impl Ctx<'_> {
     }
 }
 
+/// priorities of the generated fills: asc, desc, const, rand (xorshift)
+pub fn gen_rank(pattern: &str, i: u64, n: u64, state: &mut u64) -> i64 {
+    match pattern {
+        "asc" => (i % 900) as i64 - 450 + (i / 900) as i64 % 1,
+        "desc" => 450 - (i % 900) as i64,
+        "const" => 0,
+        _ => {
+            *state ^= *state << 13;
+            *state ^= *state >> 7;
+            *state ^= *state << 17;
+            let _ = n;
+            (*state % 1800) as i64 - 900
+        }
+    }
+}
+
 fn pairs_of(op: &Value, cx: &mut Ctx, ev: &mut Map<String, Value>) -> Vec<(Item, Pri)> {
     let mut v = vec![];
     let mut logged = vec![];
+    if let Some(g) = op.get("gen") {
+        // generated input (cost engine): not logged pair by pair
+        let cnt = g["n"].as_u64().unwrap_or(0);
+        let pat = g["pattern"].as_str().unwrap_or("rand");
+        let mut st = g["seed"].as_u64().unwrap_or(1) | 1;
+        for i in 0..cnt {
+            let r = gen_rank(pat, i, cnt, &mut st);
+            v.push((Item::new(&format!("k{}", i), 0), Pri::new_raw(r * 1000 + (i as i64 % 1000), 0)));
+        }
+        ev.insert("m".into(), json!(cnt));
+        ev.insert("pairs".into(), json!([]));
+        return v;
+    }
     if let Some(a) = op.get("pairs").and_then(|x| x.as_array()) {
         for p in a {
             let k = p[0].as_str().unwrap_or("");
@@ -392,10 +421,13 @@ fn run<T: QApi>(q: &mut T, op: &Value, cx: &mut Ctx, ev: &mut Map<String, Value>
         }
         "iter_mut" => {
             let cnt = n(op, "n") as usize;
+            let nb = n(op, "nb") as usize;
             let set = op.get("set").and_then(|v| v.as_object()).cloned().unwrap_or_default();
             let wp = b(op, "wp");
             let forget = b(op, "forget");
             let via_ref = b(op, "via_ref");
+            ev.insert("nf".into(), json!(cnt));
+            ev.insert("nb".into(), json!(nb));
             ev.insert("forget".into(), json!(forget));
             ev.insert("via_ref".into(), json!(via_ref));
             cx.scratch.clear();
@@ -403,7 +435,7 @@ fn run<T: QApi>(q: &mut T, op: &Value, cx: &mut Ctx, ev: &mut Map<String, Value>
             CMPS.with(|c| c.set(0));
             {
                 let scratch = &mut *cx.scratch;
-                q.iter_mut_front(cnt, via_ref, forget, &mut |i, p| {
+                q.iter_mut_front(cnt, nb, via_ref, forget, &mut |i, p| {
                     let y = (&*i, &*p).y();
                     let mut rec = el(&y);
                     rec["ai"] = json!(y.ai as u64 % 1_000_000_007);
@@ -436,6 +468,19 @@ fn run<T: QApi>(q: &mut T, op: &Value, cx: &mut Ctx, ev: &mut Map<String, Value>
         "clear" => {
             CMPS.with(|c| c.set(0));
             q.clear();
+        }
+        "fill" => {
+            // cost engine: n muted pushes of k0..k(n-1) with a priority pattern; one event
+            let cnt = n(op, "n") as u64;
+            let pat = s(op, "pattern").to_string();
+            let mut st = (n(op, "seed") as u64) | 1;
+            for i in 0..cnt {
+                let r = gen_rank(&pat, i, cnt, &mut st);
+                // distinct ranks inside a pattern step keep asc/desc strictly monotone
+                let fine = match pat.as_str() { "asc" => i as i64, "desc" => -(i as i64), "const" => 0, _ => r * 1000 + (i as i64 % 1000) };
+                q.push(Item::new(&format!("k{}", i), 0), Pri::new_raw(fine, 0));
+            }
+            CMPS.with(|c| c.set(0));
         }
         "reserve" | "reserve_exact" | "try_reserve" | "try_reserve_exact" | "shrink_to_fit" => {
             let (amt, logged, cls) = amount(op.get("n").unwrap_or(&Value::Null));
@@ -626,6 +671,11 @@ impl<W: Write> Interp<W> {
         let name = s(op, "op").to_string();
         let qid = n(op, "q");
         let mut ev = self.base(op, qid);
+        if !self.want_snap {
+            if let Some(q) = self.qs.get(&qid) {
+                ev.insert("n0".into(), json!(on!(q, x => x.len())));
+            }
+        }
         self.set_fault(op, &mut ev);
         CMPS.with(|c| c.set(0));
         let mut panicked = None;
@@ -711,6 +761,97 @@ impl<W: Write> Interp<W> {
                         self.qs.remove(&qid);
                         panicked = Some(msg_of(e));
                     }
+                }
+            }
+            "de_tokens" => {
+                // serde tokens (serde_test): Seq { len } announces the length (or not), then the pairs
+                use serde_test::Token;
+                let kind = if s(op, "kind").is_empty() { self.kind.clone() } else { s(op, "kind").to_string() };
+                let hasher = self.hasher.clone();
+                let mut ctr = self.ctr;
+                let mut logged = vec![];
+                let mut toks: Vec<Token> = vec![];
+                let pairs = op.get("pairs").and_then(|x| x.as_array()).cloned().unwrap_or_default();
+                let lenhint = match n(op, "lenhint") {
+                    -1 => None,
+                    _ => Some(pairs.len()),
+                };
+                toks.push(Token::Seq { len: lenhint });
+                for p in pairs.iter() {
+                    let k: &'static str = Box::leak(p[0].as_str().unwrap_or("").to_string().into_boxed_str());
+                    let r = p[1].as_i64().unwrap_or(0);
+                    ctr += 2;
+                    logged.push(json!({"k": k, "pay": ctr - 1, "r": r, "t": ctr}));
+                    toks.push(Token::Tuple { len: 2 });
+                    toks.push(Token::Struct { name: "RawItem", len: 2 });
+                    toks.push(Token::Str("k"));
+                    toks.push(Token::Str(k));
+                    toks.push(Token::Str("pay"));
+                    toks.push(Token::I64(ctr - 1));
+                    toks.push(Token::StructEnd);
+                    toks.push(Token::Struct { name: "RawPri", len: 2 });
+                    toks.push(Token::Str("r"));
+                    toks.push(Token::I64(r));
+                    toks.push(Token::Str("t"));
+                    toks.push(Token::I64(ctr));
+                    toks.push(Token::StructEnd);
+                    toks.push(Token::TupleEnd);
+                }
+                toks.push(Token::SeqEnd);
+                self.ctr = ctr;
+                ev.insert("pairs".into(), Value::Array(logged));
+                ev.insert("lenhint".into(), json!(n(op, "lenhint")));
+                ev.insert("tokkind".into(), json!(kind));
+                let toks: &'static [Token] = Box::leak(toks.into_boxed_slice());
+                match catch_unwind(AssertUnwindSafe(|| Q::de_tokens(&kind, &hasher, toks))) {
+                    Ok(Ok(sn)) => {
+                        ev.insert("ret".into(), json!("ok"));
+                        ev.insert("dsnap".into(), snap_json(&sn));
+                    }
+                    Ok(Err(_)) => {
+                        ev.insert("ret".into(), json!("err"));
+                    }
+                    Err(e) => panicked = Some(msg_of(e)),
+                }
+            }
+            "roundtrip" => {
+                // serialize queue `src` (JSON text or serde_json::Value), deserialize as `kind` into queue q
+                let src = n(op, "src");
+                let kind = if s(op, "kind").is_empty() { self.kind.clone() } else { s(op, "kind").to_string() };
+                let hasher = self.hasher.clone();
+                ev.insert("src".into(), json!(src));
+                let r = catch_unwind(AssertUnwindSafe(|| {
+                    let q = self.qs.get(&src).expect("harness: roundtrip of missing queue");
+                    on!(q, x => x.ser_json())
+                }));
+                match r {
+                    Ok(Ok(text)) => {
+                        let v: Value = serde_json::from_str(&text).expect("harness: serializer produced invalid JSON");
+                        let mut listing = vec![];
+                        for p in v.as_array().expect("harness: serialized form is not a sequence") {
+                            listing.push(json!({"k": p[0]["k"], "pay": p[0]["pay"], "r": p[1]["r"], "t": p[1]["t"]}));
+                        }
+                        ev.insert("listing".into(), Value::Array(listing));
+                        match catch_unwind(AssertUnwindSafe(|| Q::de_json(&kind, &hasher, &text))) {
+                            Ok(Ok(q)) => {
+                                ev.insert("ret".into(), json!("ok"));
+                                self.qs.insert(qid, q);
+                            }
+                            Ok(Err(_)) => {
+                                ev.insert("ret".into(), json!("de_err"));
+                                self.qs.remove(&qid);
+                            }
+                            Err(e) => {
+                                self.qs.remove(&qid);
+                                panicked = Some(msg_of(e));
+                            }
+                        }
+                    }
+                    Ok(Err(_)) => {
+                        ev.insert("ret".into(), json!("ser_err"));
+                        ev.insert("listing".into(), json!([]));
+                    }
+                    Err(e) => panicked = Some(msg_of(e)),
                 }
             }
             "clone" => {
@@ -912,6 +1053,7 @@ impl<W: Write> Interp<W> {
         let empty = vec![];
         let steps = case.get("steps").and_then(|v| v.as_array()).unwrap_or(&empty);
         let creates = |o: &Value| matches!(s(o, "op"), "new" | "from_vec" | "from_iter" | "de") && n(o, "q") == 0;
+        // (a `de` that fails leaves no queue 0: the rest of such a case must not use it)
         if steps.first().map(creates) != Some(true) {
             self.exec(&json!({"op": "new", "q": 0}));
         }
